@@ -123,6 +123,16 @@ def faults(tier):
                          ("blank-line", blank), ("plus-damaged", plus), ("at-damaged", at), ("nonascii-sequence", nonascii_s),
                          ("nonascii-quality", nonascii_q), ("second-header-differs", header2)):
             F.append(dict(kind="corrupt-" + name, off=pos, files={"in.fq": damaged(fn)}, malformed=True))
+    # a quality character below the valid range ('!'): cutadapt looks at quality values only where it computes with them, so the
+    # run uses --max-ee (there the bad character must be reported whatever its position in the line)
+    for pos in (0, len(recs) // 2):
+        for col in (0, 1, 2, 3, 4, 5, 9):
+            lines = clih.fastq_text(recs).split("\n")
+            q = lines[4 * pos + 3]
+            if col < len(q):
+                lines[4 * pos + 3] = q[:col] + "\x1f" + q[col + 1:]
+                F.append(dict(kind="corrupt-quality-below-range", off=pos * 100 + col, files={"in.fq": "\n".join(lines).encode("latin-1")},
+                              malformed=True, extra_argv=["--max-ee", "50"]))
     # paired-end faults
     r1, r2 = base_records(), r2_records()
     t1, t2 = clih.fastq_text(r1).encode(), clih.fastq_text(r2).encode()
@@ -175,6 +185,8 @@ def verdict(f):
         data = next(iter(f["files"].values()))
         recs, ok = good_prefix_records(data)
         return (ok and len(recs) % 2 == 0), None
+    if f.get("kind") == "corrupt-quality-below-range":
+        return False, base_records()[: f["off"] // 100]
     if f.get("kind") in ("trunc-bz2", "trunc-xz"):
         return (not f["malformed"]), ([] if not f["malformed"] else None)
     if "malformed" in f and f.get("paired"):
@@ -227,7 +239,7 @@ def setup_fault(f, wd):
 
 
 def argv_for(f, paths, outd, cores):
-    a = ["-j", str(cores), "--buffer-size", str(f.get("buf", BUF)), "-a", f"ad={ADAPTER}"]
+    a = ["-j", str(cores), "--buffer-size", str(f.get("buf", BUF)), "-a", f"ad={ADAPTER}"] + list(f.get("extra_argv", []))
     if f.get("paired") == "two":
         a += ["-A", "bd=TTTTCCCC", "-o", os.path.join(outd, "o1.fq"), "-p", os.path.join(outd, "o2.fq")]
     elif f.get("paired") == "interleaved":
